@@ -98,6 +98,73 @@ def _delta(st, leaf, base):
     return "?" + repr(leaf)[:80]
 
 
+def _added(leaf, base):
+    if leaf == base:
+        return ("int", 0)
+    if leaf[0] == "term" and leaf[1][0] == "arith" and leaf[1][1] == "Add" and leaf[1][2] == base:
+        return leaf[1][3]
+    return None
+
+
+def _min_leaves(t):
+    if t[0] == "term" and t[1][0] == "min":
+        return _min_leaves(t[1][1]) + _min_leaves(t[1][2])
+    return [t]
+
+
+def _chunk_row(I, st, o, nv):
+    """semantic classification of a data-handler path: ('+n', '+n', 'cont-iff-moved') when the same amount n is added
+    to both cursors, n is bounded by (and one of / a min over) the input window, the output window and the remaining
+    chunk length, the new state is CrLf exactly when nothing of the chunk is left, and `continue` <=> n > 0 --
+    whether the code says it with `min`, with `if`s or with a helper"""
+    LEFT = ("term", ("in", "left"))
+    WIN_S = ("term", ("arith", "Sub", ("term", ("len", ("in", "src"))), P_IN))
+    WIN_D = ("term", ("arith", "Sub", ("term", ("len", ("in", "dst"))), P_OUT))
+    a_in = _added(st.read_leaf(POS, (("f", "index_in"),)), P_IN)
+    a_out = _added(st.read_leaf(POS, (("f", "index_out"),)), P_OUT)
+    why = []
+    if a_in is None or a_out is None or a_in != a_out:
+        return ("?in %s" % repr(a_in)[:50], "?out %s" % repr(a_out)[:50], "?")
+    n = a_in
+    for b, what in ((WIN_S, "input window"), (WIN_D, "output window"), (LEFT, "remaining chunk length")):
+        if not (n == b or I.decide_le(st, n, b)):
+            why.append("not bounded by the %s" % what)
+    leaves = _min_leaves(n)
+    if not all(l in (WIN_S, WIN_D, LEFT) for l in leaves):
+        why.append("amount %s is not the input window, the output window, the remaining length or a min of them" % repr(n)[:60])
+    # next state
+    payload = st.read_leaf(D, (("v", "Chunk"), ("f", "0")))
+    rem = ("term", ("arith", "Sub", LEFT, n))
+    if nv == "Chunk":
+        if payload != rem and not (n == ("int", 0) and payload == LEFT):
+            why.append("remaining length becomes %s" % repr(payload)[:60])
+        if n == LEFT or I.decide(st, ("eq", ("int", 0), rem)) is True:
+            why.append("stays in Chunk although nothing of the chunk is left")
+    elif nv == "CrLf":
+        if not (n == LEFT or I.decide(st, ("eq", ("int", 0), rem)) is True or I.decide_le(st, LEFT, n)):
+            why.append("leaves the chunk although data may remain")
+    else:
+        why.append("next state %s" % nv)
+    cont = o.ret.get((("v", "Ok"), ("f", "0")))
+    moved = I.decide_le(st, ("int", 1), n)
+    none = (n == ("int", 0)) or I.decide(st, ("eq", ("int", 0), n)) is True
+    if cont == ("int", 1):
+        if not moved:
+            why.append("continues although possibly nothing moved")
+    elif cont == ("int", 0):
+        if not none:
+            why.append("stops although data moved")
+    elif cont and cont[0] == "term":
+        rc = repr(cont)
+        if repr(n) not in rc or not (cont[1][0] in ("lt", "not", "eq")):
+            why.append("continue flag is %s" % rc[:60])
+    else:
+        why.append("continue flag %s" % repr(cont)[:40])
+    if why:
+        return ("?" + "; ".join(why)[:200], "?", "?")
+    return ("+n", "+n", "cont-iff-moved")
+
+
 def _crlf_class(st):
     """class of the CRLF finder's result on this path: None / 0 / pos"""
     for k, v in st.facts.items():
@@ -141,33 +208,48 @@ def rule_transitions(ctx):
     pi = prog.find("Dechunker::parse_input")
     if not ctx.require(pi, R, "parse_input", "Dechunker::parse_input"):
         return
-    # ---- dispatch table: which handler runs in which state
-    handlers = {}
+    # ---- dispatch table: which handler runs in which state (the `match self` may sit in parse_input itself or in a
+    # helper it calls once per loop iteration)
+    from .panics import _switch_on_discriminant_of
+
+    def dispatch_of(body):
+        handlers = {}
+        for bb, t in body.calls():
+            ce = callee_of(t)
+            if ce and ce.get("resolved_local", ce["local"]):
+                b = prog.bodies.get(ce.get("resolved") or ce["def"])
+                if b is not None and (b.impl_self or "").endswith("Dechunker") and b is not body and b is not pi:
+                    handlers[bb] = b
+        disp = {}
+        for bb, blk in enumerate(body.blocks):
+            sw = _switch_on_discriminant_of(body, bb)
+            if sw is None:
+                continue
+            place, names = sw
+            t = blk["term"]
+            for v, tb in t["targets"]:
+                cur = tb
+                for _ in range(4):
+                    if cur in handlers:
+                        disp[names.get(int(v))] = handlers[cur]
+                        break
+                    succ = body.successors(cur)
+                    if len(succ) != 1:
+                        break
+                    cur = succ[0]
+        return disp
+    cands = [pi]
     for bb, t in pi.calls():
         ce = callee_of(t)
         if ce and ce.get("resolved_local", ce["local"]):
             b = prog.bodies.get(ce.get("resolved") or ce["def"])
             if b is not None and (b.impl_self or "").endswith("Dechunker") and b is not pi:
-                handlers[bb] = b
-    from .panics import _switch_on_discriminant_of
+                cands.append(b)
     dispatch = {}
-    for bb, blk in enumerate(pi.blocks):
-        sw = _switch_on_discriminant_of(pi, bb)
-        if sw is None:
-            continue
-        place, names = sw
-        t = blk["term"]
-        for v, tb in t["targets"]:
-            # follow straight-line blocks to a handler call
-            cur = tb
-            for _ in range(4):
-                if cur in handlers:
-                    dispatch[names.get(int(v))] = handlers[cur]
-                    break
-                succ = pi.successors(cur)
-                if len(succ) != 1:
-                    break
-                cur = succ[0]
+    for cb in cands:
+        d = dispatch_of(cb)
+        if len(d) > len(dispatch):
+            dispatch = d
     ctx.extra_coverage["dechunker_dispatch"] = {k: v.short for k, v in dispatch.items()}
     if not ctx.floor(R, "dispatch", len(dispatch), 5, "state -> handler dispatch entries"):
         return
@@ -175,6 +257,7 @@ def rule_transitions(ctx):
     I = _mk(prog)
     results = {}
     inv_bad = []
+    size_bad = []
     for state, h in sorted(dispatch.items()):
         nargs = h.arg_count
         args = [ref(D), ref(SRC)] + ([ref(DST)] if nargs == 4 else []) + [ref(POS)]
@@ -206,6 +289,22 @@ def rule_transitions(ctx):
             if not I.decide_le(st, st.read_leaf(POS, (("f", "index_out"),)), ("term", ("len", ("in", "dst")))):
                 inv_bad.append("%s: output cursor may pass the end of the output" % state)
             nv = variant_at(st.read_tree(D, ()))
+            if state == "Size" and nv in ("Chunk", "Ending"):
+                # the size line's number decides: Ending <=> parsed length == 0; Chunk carries the parsed length, which is >= 1
+                num = [k for k in st.facts if k[0] == "proj" and "from_str_radix" in repr(k[1]) and k[2] == (("v", "Ok"), ("f", "0"))]
+                pay = st.read_leaf(D, (("v", "Chunk"), ("f", "0"))) if nv == "Chunk" else None
+                if nv == "Chunk":
+                    if not (pay and pay[0] == "term" and "from_str_radix" in repr(pay)):
+                        size_bad.append("Size -> Chunk with a length that is not the parsed number (%s)" % repr(pay)[:80])
+                    elif not I.decide_le(st, ("int", 1), pay):
+                        size_bad.append("Size -> Chunk although the parsed length may be 0 (a zero length is the last chunk, however it is spelled)")
+                else:
+                    z = [k for k in num if st.facts[k][0] == "iv" and st.facts[k][1] == ((0, 0),)]
+                    if not z:
+                        size_bad.append("Size -> Ending without the parsed length being 0 (decided by something else than the number)")
+            if state == "Chunk":
+                rows.add((cls, nv) + _chunk_row(I, st, o, nv) + (None,))
+                continue
             din = _delta(st, st.read_leaf(POS, (("f", "index_in"),)), P_IN)
             dout = _delta(st, st.read_leaf(POS, (("f", "index_out"),)), P_OUT)
             cont = o.ret.get((("v", "Ok"), ("f", "0")))
@@ -241,6 +340,9 @@ def rule_transitions(ctx):
     ncell += 1
     if set((r[1], r[2], r[3], r[4]) for r in ok_rows) != {("Ending", "+i+2", "+0", "cont"), ("Chunk", "+i+2", "+0", "cont")}:
         bad.append("Size on a complete size line: got %s, expected -> Chunk(len) or (len == 0) -> Ending, consuming the line and its CRLF" % sorted(map(str, ok_rows)))
+    ncell += 1
+    if size_bad:
+        bad.extend(sorted(set(size_bad)))
     errs = set(r[5] for r in size if r[5])
     ncell += 1
     if not {"ChunkExpectedCrLf", "ChunkLenNotAscii", "ChunkLenNotANumber"} <= errs:
@@ -419,31 +521,26 @@ def rule_outer_loop(ctx):
                 bwd.add(p)
                 st.append(p)
     loop = (fwd & bwd) | {head}
-    # exit conditions: switches in the loop with a successor outside
-    conds = []
-    for b in sorted(loop):
-        t = rc.blocks[b]["term"]
-        if t["k"] == "switch" and any(s not in loop for s in rc.successors(b)):
-            conds.append(b)
     calls_in_loop = [short(callee_path(t) or "") for b, t in rc.calls() if b in loop]
-    has_ended = any(c.endswith("Dechunker::is_ended") for c in calls_in_loop)
-    has_boundary = any(c.endswith("Dechunker::is_on_chunk_boundary") for c in calls_in_loop)
     has_parse = any(c.endswith("Dechunker::parse_input") for c in calls_in_loop)
-    nlen = sum(1 for c in calls_in_loop if c.endswith("<impl [T]>::len"))
-    ctx.check(has_parse and has_ended and has_boundary and len(conds) >= 5 and nlen >= 2, R, "exits",
-              "the outer read loop calls the decoder once per iteration and has exits on: nothing consumed, input exhausted, output full, "
-              "decoder ended, boundary stop (%d exit tests)" % len(conds), loc=body_loc(rc),
-              detail=dict(exit_blocks=conds, calls=sorted(set(calls_in_loop))))
+    ctx.check(has_parse, R, "decoder-in-loop", "the outer read loop calls the decoder", loc=body_loc(rc))
     # windows handed to the decoder are the unread / unwritten remainders
     I = _mk(prog, dedup=True, loop_bound=2, max_states=20000)
     I.summarize = {"Dechunker::parse_input"}
     I.contracts["Dechunker::parse_input"] = parse_input_contract
     hook_calls = []
 
+    second_calls = []
+
     def hook(interp, st, kind, info):
         if kind == "call" and info["call"].path and info["call"].path.endswith("Dechunker::parse_input"):
             c = info["call"]
             hook_calls.append((repr(c.deref(c.args[1])), repr(c.deref(c.args[2]))))
+            nprev = sum(1 for e in st.events if e[0] == "decoder-call")
+            st.events.append(("decoder-call",))
+            if nprev == 1:
+                stopv = interp.decide(st, ("in", "stop"))
+                second_calls.append((dict(st.facts), variant_at(c.deref(c.args[0])), stopv))
     I.event_hook = hook
 
     def init(st):
@@ -456,6 +553,31 @@ def rule_outer_loop(ctx):
     except (PathLimit, Unsupported) as e:
         ctx.incomplete(R, "interp", str(e))
         return
+    # exits, semantically: a path that calls the decoder a second time must have seen, after the first call,
+    #   consumed != 0, total consumed != src.len(), total produced != dst.len(), decoder not Ended,
+    #   and not (boundary stop requested and decoder on a chunk boundary)  -- however the tests are written
+    bad_exit = []
+    n_cont = 0
+    for vs in second_calls:
+        n_cont += 1
+        facts_, variant, stop = vs
+        CALL1 = "'Dechunker::parse_input'"
+
+        def falsified(pred):
+            return any(v == ("bool", False) and pred(k) for k, v in facts_.items())
+        if not falsified(lambda k: k[0] == "eq" and ("int", 0) in (k[1], k[2]) and CALL1 in repr(k) and "('f', '0'), ('f', '0'))" in repr(k)):
+            bad_exit.append("the loop goes on although the decoder may have consumed nothing (no progress)")
+        if not falsified(lambda k: k[0] == "eq" and "('len', ('in', 'src'))" in repr(k) and CALL1 in repr(k)):
+            bad_exit.append("the loop goes on although the input may be exhausted")
+        if not falsified(lambda k: k[0] == "eq" and "('len', ('in', 'dst'))" in repr(k) and CALL1 in repr(k)):
+            bad_exit.append("the loop goes on although the output may be full")
+        if variant is None or variant == "Ended":
+            bad_exit.append("the loop goes on although the decoder may have ended (state %s)" % variant)
+        if stop is not False and variant in (None, "Size"):
+            bad_exit.append("the loop goes on across a chunk boundary although boundary stopping may be on (state %s)" % variant)
+    ctx.check(n_cont >= 1 and not bad_exit, R, "exits",
+              "every path into a second decoder call has seen: progress, input not exhausted, output not full, decoder not ended, and no "
+              "chunk boundary while boundary stopping is on (%d continuing paths)" % n_cont, loc=body_loc(rc), detail=sorted(set(bad_exit))[:4])
     ok = bool(hook_calls) and all("('in', 'src')" in a and "'start'" in a and "('in', 'dst')" in b and "'start'" in b for a, b in hook_calls)
     ctx.check(ok, R, "windows", "each decoder call receives src[input_used..] and dst[output_used..]", loc=body_loc(rc))
     _report_obligations(ctx, R, I, "BodyReader::read_chunked")
